@@ -7,6 +7,7 @@ import (
 	"path/filepath"
 	"strings"
 
+	"github.com/spf13/pflag"
 	"k8s.io/gengo/args"
 	dcgen "k8s.io/gengo/examples/deepcopy-gen/generators"
 )
@@ -34,13 +35,30 @@ func c10viaArgs(g *Gen) {
 		os.WriteFile(filepath.Join(d, "file.go"), []byte(pkg.Src), 0644)
 		outBase := filepath.Join(os.Getenv("VERIF_WORK"), fmt.Sprintf("c10out%d", i))
 		outFile := filepath.Join(outBase, pkg.Path, "zz_generated.deepcopy.go")
+		// three ways to ask for verify-only: the field preset and no flag parsing; the field preset
+		// by the tool and Execute's own flag parsing on a command line without the flag; the flag
+		how := i % 3
+		howCls := []string{"verify-only-preset-no-flag-parsing", "verify-only-preset-with-flag-parsing", "verify-only-flag"}[how]
 		run := func(verify bool) error {
-			a := args.Default().WithoutDefaultFlagParsing()
+			a := args.Default()
+			if how == 0 {
+				a = a.WithoutDefaultFlagParsing()
+			} else {
+				savedFlags, savedArgs := pflag.CommandLine, os.Args
+				pflag.CommandLine = pflag.NewFlagSet("tool", pflag.ContinueOnError)
+				os.Args = []string{"tool"}
+				if how == 2 && verify {
+					os.Args = []string{"tool", "--verify-only"}
+				}
+				defer func() { pflag.CommandLine, os.Args = savedFlags, savedArgs }()
+			}
 			a.InputDirs = []string{pkg.Path}
 			a.OutputBase = outBase
 			a.OutputFileBaseName = "zz_generated.deepcopy"
 			a.GoHeaderFilePath = hdr
-			a.VerifyOnly = verify
+			if how != 2 {
+				a.VerifyOnly = verify
+			}
 			a.CustomArgs = &dcgen.CustomArgs{}
 			return a.Execute(dcgen.NameSystems(), dcgen.DefaultNameSystem(), dcgen.Packages)
 		}
@@ -97,7 +115,7 @@ func c10viaArgs(g *Gen) {
 			os.WriteFile(outFile, good, 0644)
 		}
 		_ = bytes.Equal
-		g.Emit("C10.viaargs!", list(atom(pkg.Src[:min(len(pkg.Src), 300)]), atom(strings.Join(problems, "; "))), boolS(len(problems) == 0), "verify-only-through-args")
+		g.Emit("C10.viaargs!", list(atom(pkg.Src[:min(len(pkg.Src), 300)]), atom(strings.Join(problems, "; "))), boolS(len(problems) == 0), "verify-only-through-args", howCls)
 		os.RemoveAll(outBase)
 		os.RemoveAll(filepath.Join(src, "ex.test", fmt.Sprintf("vf%d", i)))
 	}
